@@ -365,13 +365,56 @@ def rasteriser(ctx):
         ctx.inst('Q5', 'Tilemap::image', ok, 'Tilemap::image() = %s; must be self.cel.image()' % show(t)[:80], ib.span, key=ib.name + '|Q5')
 
 
+GEOMETRY = (TM + 'Tilemap::tile', TM + 'Tilemap::tile_offsets', TM + 'TilemapData::tile', AF + 'tilemap', F + 'tile_slice',
+            F + 'write_tilemap_cel_to_image', TS + 'TileSize::pixels_per_tile', TS + 'Tileset::tile_image', TS + 'Tileset::image')
+
+
+def no_wrap(ctx):
+    """Q6: the index polynomials above ignore casts and widths, so the same functions' checked arithmetic must not be able to wrap
+    (a wrapped index makes lookup, slice and image disagree): every overflow / division site is width-safe or discharged by the
+    rows C04/C05/C16 use"""
+    import panics
+    import totality as T
+    import invariants
+    import C04 as _c04
+    import C05 as _c05
+    fx = ctx.fx
+    I = invariants.Inv(ctx)
+
+    def need(*names):
+        bad = [n for n in names if not I.get(n)[0]]
+        return (not bad), ('relies on %s' % ', '.join(names)) + ('' if not bad else ' - NOT ESTABLISHED: %s' % ', '.join(bad))
+    handles = dict(layer=True, frame=True, cel=True, tilemap=True)
+    bodies = [fx.body(n) for n in GEOMETRY if fx.body(n) is not None]
+    inv = [s_ for s_ in panics.inventory(fx, bodies) if s_.kind.startswith(('overflow:', 'neg', 'div0'))]
+    ctx.floor('arithmetic sites in the tile-geometry functions', len(inv), 15)
+    counts = {}
+    for s_ in inv:
+        n = counts.get((s_.body.name, s_.kind, s_.what), 0)
+        counts[(s_.body.name, s_.kind, s_.what)] = n + 1
+        reason = T.auto(s_)
+        ok = reason is not None
+        if not ok:
+            f = _c04.find_row(s_)
+            if f is not None:
+                try:
+                    ok, reason = f(ctx, s_)
+                except Exception as e:
+                    ok, reason = False, 'obligation crashed: %r' % (e,)
+            else:
+                ok, reason, _ = _c05.discharge(ctx, I, s_, handles, need)
+        ctx.inst('Q6', '%s %s' % (s_.body.name.split('asefile::')[-1], s_.kind), ok, '%s at %s cannot wrap: %s' % (s_.kind, s_.what[:70], reason), s_.span,
+                 key='Q6|' + s_.key(n))
+
+
 def run(ctx):
     ctx.rules = ['Q1 tile lookup: stored tile in range, EMPTY_TILE (id 0) otherwise', 'Q2 logical size = ceil(canvas / tile size)',
                  'Q3 tile offsets = cel offset / tile size', 'Q4 tileset image = tile images stacked in index order',
-                 'Q5 tilemap rasteriser wiring (tile, slice, strides, target position, opacity)']
+                 'Q5 tilemap rasteriser wiring (tile, slice, strides, target position, opacity)',
+                 'Q6 the arithmetic of these functions cannot wrap']
     ctx.assumptions += ['image::ImageBuffer::from_raw(w, h, buf) is row-major with row length w (documented)',
                         'Iterator::skip/take/collect and slice indexing behave as documented',
-                        'width safety of the arithmetic (no wrap) is decided by C04/C05/C16, not here']
+                        'width safety of the arithmetic (no wrap) is decided with the same discharge rows as C04/C05/C16 (rule Q6)']
     ctx.explanation = (
         'C08 relates three index computations. What is decided here is their wiring, compared as polynomials over atoms so that only '
         'the pairing of quantities matters: the lookup reads tiles[(y-oy)*W + (x-ox)] exactly inside the stored area and yields the static '
@@ -387,4 +430,5 @@ def run(ctx):
     offsets(ctx)
     tileset_images(ctx)
     rasteriser(ctx)
+    no_wrap(ctx)
     ctx.samples = [i for i in ctx.instances][:16]
